@@ -6,31 +6,50 @@ import FormulaicVerif.Proofs.C01Grammar
 import FormulaicVerif.Proofs.ShuntSound
 import FormulaicVerif.Proofs.C01Intercept
 import FormulaicVerif.Proofs.C01TopLevel
+import FormulaicVerif.Proofs.C01Denote
+import FormulaicVerif.Proofs.C01String
+import FormulaicVerif.Proofs.C01Algebra
+import FormulaicVerif.Proofs.C01FormsGrammar
+import FormulaicVerif.Proofs.C19SF
 /-! # C01 — Formula strings denote exactly the documented Wilkinson term algebra
 
-Property theorems only (helpers: `Proofs/ShuntComplete.lean`, `Proofs/C01.lean`). They are about
-the very definitions the correspondence engine `c01` runs (`Model/{Tokenize,TokenOps,Shunt,Eval,Parser}.lean`).
+Property theorems only (helpers: `Proofs/ShuntComplete.lean`, `Proofs/ShuntSound.lean`, `Proofs/C01*.lean`). They
+are about the very definitions the correspondence engine `c01` runs: the parser stack
+`Model/{Tokenize,TokenOps,Shunt,Eval,Parser}.lean` and the specification forms `Model/FromSpec.lean`.
 
-What is proved, for ALL inputs: the live operator table is the documented one (all 8 flag subsets);
-the shunting-yard returns the documented tree for every expression of the documented arithmetic
-grammar (`grammar_parses`: Sum/Prod/Inter/Pow/Atom levels, unbounded nesting and chains; via the more
-general `shunt_complete`); the documented TOP level `Parts ~ Parts`, `Parts := Sum | Sum '|' Parts`,
-parses to its documented tree and evaluates to the documented `{lhs, rhs}` structure of term sets /
-tuples of term sets, and the flag-disabled forms and a second `~` are rejected (C01.3a–e, C01.7a–c;
-`Proofs/C01TopLevel.lean`); conversely an accepted token list is never re-ordered, dropped from or
-duplicated (`shunt_preserves_tokens`: the in-order reading of the returned tree is the input token list
-without its brackets, each operator token replaced by the operators chosen for it; helpers in
-`Proofs/ShuntSound.lean`); the token-level intercept insertion for one-sided formulas and for formulas with
-`~` / `|` separators (every right-hand part, no left-hand part, `-1`/`+0` rewriting: C01.6c–i); sign-run collapsing keeps every other operator character in place and reduces
-each run by parity; the documented spelling identities hold on ordered term sets; the final ordering
-is a stable sort by interaction degree.
+MAIN THEOREM (C01.7d–j, reference semantics `Spec/WilkinsonDenote.lean`): for every formula of the
+documented grammar — `Side`, `~ Side`, `Side ~ Side`; `Side := Sum | … | Sum`; `Sum` any expression over
+`+ - * / %in% : ** ^`, parentheses, a leading sign; unbounded nesting — that the feature flags allow and
+that has no literal `0`, and for every parser configuration, `get_terms` IS the documented denotation
+(rejections included) and `Formula(<str>)` is that denotation simplified and stably ordered by degree:
+from the token sequence (C01.7e); from the STRING, with no hypothesis about the tokenizer, when the
+formula is written with one space after every token and its atoms are plain names / numbers (C01.7h–j);
+from any other spelling given that it tokenises to the formula's token sequence (C01.7d; source spans
+are irrelevant).
+
+Its ingredients, theorems of their own: the live operator table is the documented one (C01.1); the
+shunting-yard returns the documented tree for every expression of the arithmetic grammar (C01.3, 3') and
+of the top level, and rejects what the flags disable (C01.3a–e); an accepted token list is never
+re-ordered, dropped from or duplicated (C01.4); sign-run collapsing (C01.2); the token-level intercept
+insertion (C01.6a–i) and `1 +` in front of a part IS reading the part from `{1}` (C01.7g); evaluation =
+denotation on the arithmetic levels (C01.5) and on the top level (C01.7a–c).
+
+TERM ALGEBRA (C01.8, C01.10): spelling identities; `+` idempotent / associative, `-` set difference,
+`:` distributes over `+`, `S ** (n+1) = (S ** n) : S`; all with order. ORDERING (C01.9, 9d).
+SPECIFICATION FORMS (C01.9a–f, `Model/FromSpec.lean`): string = list of Terms = list of strings;
+string = dict = `lhs=`/`rhs=` keywords = `Structured`; tuple = `|`; `Formula("l ~ p") =
+Formula(lhs="l", rhs="1 + p")` for the documented grammar with no hypothesis left.
 
 FULL (unproved): `parse_eq_denote : WF f → Model.parseTerms cfg env (render f) = Spec.denoteFormula cfg f`
-for the whole grammar including `~`, `|`, intercept insertion and `.`. What is missing: the
-evaluation-equals-denotation induction for structured values (the token-level intercept-insertion
-lemma is now C01.6c–i); these
-clauses are covered by the correspondence stream plus the independent reference evaluator of the
-documented semantics in `harness/parser_common.py` (`denote`), not by a theorem. -/
+for the whole grammar INCLUDING the `.` wildcard, the literal `0` as a summand, runs of signs, quoted /
+Python atoms, and an arbitrary `render : Formula → String` (any whitespace, redundant parentheses).
+What is missing: (1) the tokenizer on an ARBITRARILY spaced / quoted rendering (C01.7h covers single
+spaces and plain atoms; for the rest `tokenize (render f) = tokens f` is a hypothesis of C01.7d, checked
+on every generated string by the `get_tokens` correspondence), and a part after `~` / `|` that starts
+with a sign (the lexer merges `~ -` into one token, which the rewriting splits again: covered from the
+token sequence, C01.7e); (2) `.`, `0` and sign runs inside the grammar (`0` and sign runs are covered at
+the token / character level by C01.6i and C01.2, `.` by the correspondence plus the reference evaluator
+`harness/parser_common.py: denote`). -/
 namespace FormulaicVerif.Props.C01
 open FormulaicVerif FormulaicVerif.Model FormulaicVerif.Proofs.ShuntC
 
@@ -588,5 +607,339 @@ example : tokensToAst (Gen.defaultTable true false false) [tA, opTok ['|'], tB]
       = .error (.syntax "operator incorrectly used or disabled") := ⟨rfl, rfl, rfl⟩
 
 end TopLevel
+
+/-! ### C01.5 / C01.7 continued — evaluation equals denotation, parse equals denotation
+
+`Spec/WilkinsonDenote.lean` is the reference semantics: `denSum` (a `Sum` read from nothing), `foldSum`
+(read from `{1}`), `denoteFormula` (sides, `{lhs, rhs}` / `{root}`, validation). -/
+section Denotation
+open FormulaicVerif.Spec.Denote FormulaicVerif.Proofs.C01Denote
+
+/-- C01.5  **Evaluation equals denotation** on the arithmetic levels: for every `Sum` of the documented
+grammar (unbounded nesting, every operator `+ - * / %in% : ** ^`, parentheses, a leading sign) the
+evaluator applied to the documented tree returns the documented denotation — `+` union, `-` difference,
+`:` pairwise products, `a*b = a ∪ b ∪ a:b`, `a/b = a ∪ (∏a):b`, `b %in% a = a/b`, `a**n` the n-fold
+products — and is rejected exactly when the denotation is (non-integer exponent, empty parent of `/`),
+with the left operand's rejection first. Whatever the `.` context. -/
+theorem eval_eq_denote (dot : DotCtx) (s : Proofs.C01Grammar.Sum) :
+    evalAst dot (strip (Proofs.C01Grammar.toE s)) = (denSum s).map Val.set :=
+  Proofs.C01Eval.eval_sum_eq_denote dot s
+
+/-- C01.7d  **Parse = denotation, from the string** (the main theorem; `_partial`: the `.` wildcard, the
+literal `0` and sign runs are outside the grammar `Formula`). Let `cs` be any string (characters with
+their `re` classes) that tokenises to `ts0`, whose Python fragments normalise (`sanitize_tokens`) giving
+`ts`, and let `ts` be — up to the source spans the tokens carry — the token sequence of a formula `f` of
+the documented grammar: `Side`, `~ Side` or `Side ~ Side`, a `Side` being `Sum | … | Sum`, the `Sum`s
+arbitrary expressions of the arithmetic grammar. If the feature flags allow `f` (`|` needs MULTIPART,
+the two-sided `~` TWOSIDED) and no token is the literal `0`, then for EVERY parser configuration
+`DefaultFormulaParser(cfg).get_terms(cs)` is `denoteFormula cfg f`: the structure `{root}` / `{lhs, rhs}`
+of the sides, each the term set of its part or the tuple of its parts' term sets, every right-hand part
+read from `{1}` when `include_intercept` is on (from nothing when off, and on the left-hand side
+always), validated; and it is a rejection exactly when the denotation is. -/
+theorem parse_eq_denote_partial (cfg : ParseCfg) (env : PyEnv) (cs : List CharInfo) (ts0 ts : List Tok)
+    (f : Formula) (h1 : tokenizeStream cs = (ts0, none)) (h2 : sanitizeTokens env.norm ts0 = .ok ts)
+    (h3 : ts.map Proofs.C15Ws.erase = f.toks) (hen : f.Enabled cfg) (hz : NoZero f.toks) :
+    parseTerms cfg env cs = denoteFormula cfg f :=
+  parse_eq_denote_string cfg env cs ts0 ts f h1 h2 h3 hen hz
+
+/-- C01.7e  The same from the token sequence on (`parseToks` is `get_terms` after `sanitize_tokens`:
+token rewriting, shunting-yard, evaluation, wrapping, `check_terms`; `parseTerms_of_tokens`). -/
+theorem parse_eq_denote_tokens_partial (cfg : ParseCfg) (env : PyEnv) (f : Formula) (hen : f.Enabled cfg)
+    (hz : NoZero f.toks) : parseToks cfg env f.toks = denoteFormula cfg f :=
+  parse_eq_denote_tokens cfg env f hen hz
+
+/-- C01.7f  … and `Formula(<str>)` is that denotation simplified, every part stably ordered by degree. -/
+theorem formula_eq_denote_partial (cfg : ParseCfg) (env : PyEnv) (cs : List CharInfo) (ts0 ts : List Tok)
+    (f : Formula) (h1 : tokenizeStream cs = (ts0, none)) (h2 : sanitizeTokens env.norm ts0 = .ok ts)
+    (h3 : ts.map Proofs.C15Ws.erase = f.toks) (hen : f.Enabled cfg) (hz : NoZero f.toks) :
+    formulaOfString cfg env cs
+      = (denoteFormula cfg f).map (fun v => mapLeaves sortByDegree (simplifyVal (valDepth v + 2) v)) := by
+  unfold formulaOfString
+  rw [parse_eq_denote_partial cfg env cs ts0 ts f h1 h2 h3 hen hz]
+
+/-- C01.7g  The token-level insertion of `1 +` IS "read the part from `{1}`": the `Sum` `1 + s` (`1 - …`
+when `s` starts with `-`) read from nothing denotes what `s` read from `{1}` denotes. -/
+theorem intercept_is_fold (s : Proofs.C01Grammar.Sum) : denSum (withOne s) = foldSum [intercept] s :=
+  denSum_withOne s
+
+/-- the parser does not look at source spans (why C01.7d may forget them) -/
+theorem spans_irrelevant (cfg : ParseCfg) (env : PyEnv) (ts : List Tok) :
+    parseToks cfg env (ts.map Proofs.C15Ws.erase) = parseToks cfg env ts :=
+  parseToks_erase cfg env ts
+
+private def ci (s : String) : List CharInfo :=
+  s.toList.map (fun c => { c := c, word := c.isAlphanum || c == '_' || c == '.', space := c == ' ' })
+private def env0 : PyEnv := { norm := fun x => .ok x, pyvars := fun _ => [], available := none }
+private def nmS (c : Char) : Proofs.C01Grammar.Sum :=
+  .first none (.inter (.pow (.atom (.tok { text := [c], kind := some .name } ⟨by simp, by simp⟩))))
+private def aPlusB : Proofs.C01Grammar.Sum :=
+  .add .plus (nmS 'a') (.inter (.pow (.atom (.tok { text := ['b'], kind := some .name } ⟨by decide, by decide⟩))))
+private def minusAPlusB : Proofs.C01Grammar.Sum :=
+  .add .plus (.first (some .minus) (.inter (.pow (.atom (.tok { text := ['a'], kind := some .name } ⟨by decide, by decide⟩)))))
+    (.inter (.pow (.atom (.tok { text := ['b'], kind := some .name } ⟨by decide, by decide⟩))))
+private def tm (c : Char) : Term := [Factor.mk (String.ofList [c]) .lookup]
+
+/-- non-vacuity of C01.7d: the STRING `y ~ a + b | c` satisfies every hypothesis for
+`f = two y [] (a + b) [c]` (the tokenizer run, the sanitiser and the span-forgetting comparison are
+computed by `rfl`), so the theorem gives the parser's result as the documented denotation, which is
+`{lhs: {y}, rhs: ({1, a, b}, {1, c})}` -/
+example : parseTerms {} env0 (ci "y ~ a + b | c")
+    = denoteFormula {} (.two (nmS 'y') [] aPlusB [nmS 'c']) :=
+  parse_eq_denote_partial {} env0 (ci "y ~ a + b | c") _ _ (.two (nmS 'y') [] aPlusB [nmS 'c'])
+    rfl rfl rfl ⟨rfl, Or.inr rfl⟩ (by decide)
+
+example : denoteFormula {} (.two (nmS 'y') [] aPlusB [nmS 'c'])
+    = .ok (.struct [("lhs", .set [tm 'y']),
+        ("rhs", .tuple [.set [intercept, tm 'a', tm 'b'], .set [intercept, tm 'c']])]) := by rfl
+
+/-- … and a one-sided formula with a leading sign, `- a + b`: read from `{1}` it is `({1} \ a) ∪ b`;
+without the implicit intercept `(∅) ∪ b` -/
+example : parseTerms {} env0 (ci "- a + b") = denoteFormula {} (.one minusAPlusB [])
+    ∧ denoteFormula {} (.one minusAPlusB []) = .ok (.struct [("root", .set [intercept, tm 'b'])])
+    ∧ denoteFormula { includeIntercept := false } (.one minusAPlusB []) = .ok (.struct [("root", .set [tm 'b'])]) :=
+  ⟨parse_eq_denote_partial {} env0 (ci "- a + b") _ _ (.one minusAPlusB []) rfl rfl rfl (Or.inl rfl) (by decide),
+   by rfl, by rfl⟩
+
+end Denotation
+
+/-! ### C01.7 continued — from the string, with no hypothesis about the tokenizer -/
+section Rendered
+open FormulaicVerif.Spec.Denote FormulaicVerif.Proofs.C01Denote FormulaicVerif.Proofs.C01Lex
+  FormulaicVerif.Proofs.C01String
+
+/-- C01.7h  **The tokenizer returns the tokens that were written.** For every list of tokens — words
+(names, numbers), operator tokens, `%in%`, parentheses — in which no two operator tokens follow each
+other, the string that writes them one after the other, each followed by one space, tokenises without
+error to exactly these tokens (up to source spans). The character classes `\w`, `\s` are data
+(`Classes`); assumed only: word characters are word characters, operator characters are neither word
+characters nor whitespace, the space is whitespace, none of them is one of `% { ` ( [ ) ] " '`. -/
+theorem tokenize_rendered (C : Classes) (hsp : SpaceChar (C.cl ' ')) (lts : List LT)
+    (hok : ∀ lt ∈ lts, lt.Ok C) (hadj : NoAdjOps lts) :
+    ∃ ts, tokenizeStream (render C lts) = (ts, none)
+      ∧ ts.map Proofs.C15Ws.erase = lts.map (fun lt => lt.tok C) :=
+  tokenize_render C hsp lts hok hadj
+
+/-- C01.7i  **Parse = denotation from the STRING** (`_partial`: `.`, `0`, sign runs and quoted / Python
+atoms stay out). For every formula `f` of the documented grammar whose tokens can be written (`TokOk`:
+atoms are plain names / numbers; the operator characters are operator characters for the given
+classes) and in which no part after `~` / `|` starts with a sign (`OpIso`), that the feature flags allow
+and that has no literal `0`: the string "tokens of `f`, each followed by one space" parses, under every
+parser configuration, to the documented denotation of `f`. No hypothesis about the tokenizer, the
+sanitiser or the shunting-yard is left. -/
+theorem parse_eq_denote_rendered_partial (C : Classes) (hsp : SpaceChar (C.cl ' ')) (cfg : ParseCfg)
+    (env : PyEnv) (f : Formula) (hok : ∀ t ∈ f.toks, TokOk C t) (hiso : Proofs.C01Tokens.OpIso f.toks)
+    (hen : f.Enabled cfg) (hz : NoZero f.toks) :
+    parseTerms cfg env (render C (f.toks.map ltOfTok)) = denoteFormula cfg f :=
+  parse_render C hsp cfg env f hok hiso hen hz
+
+/-- C01.7j  … for ANY single `Sum` (one-sided, one part; a leading sign allowed) no condition on the
+shape is left at all. -/
+theorem parse_eq_denote_rendered_sum_partial (C : Classes) (hsp : SpaceChar (C.cl ' ')) (cfg : ParseCfg)
+    (env : PyEnv) (s : Proofs.C01Grammar.Sum)
+    (hok : ∀ t ∈ lin (Proofs.C01Grammar.toE s), TokOk C t) (hz : NoZero (lin (Proofs.C01Grammar.toE s))) :
+    parseTerms cfg env (render C ((lin (Proofs.C01Grammar.toE s)).map ltOfTok)) = denoteFormula cfg (.one s []) :=
+  parse_render_sum C hsp cfg env s hok hz
+
+private def ascii : Classes :=
+  { cl := fun c => { c := c, word := c.isAlphanum || c == '_' || c == '.', space := c == ' ' }
+    c_eq := fun _ => rfl }
+
+/-- non-vacuity: with ASCII classes, `- a + b` (a leading sign) and `y ~ a + b` satisfy every hypothesis
+(all decided), the rendered strings are `"- a + b "` and `"y ~ a + b "`, and the theorems give the
+parser's result on these STRINGS as the documented denotations -/
+example : (render ascii ((lin (Proofs.C01Grammar.toE minusAPlusB)).map ltOfTok)).map (·.c) = "- a + b ".toList
+    ∧ parseTerms {} env0 (render ascii ((lin (Proofs.C01Grammar.toE minusAPlusB)).map ltOfTok))
+        = denoteFormula {} (.one minusAPlusB []) :=
+  ⟨by decide, parse_eq_denote_rendered_sum_partial ascii (by decide) {} env0 minusAPlusB (by decide) (by decide)⟩
+
+example : (render ascii ((Formula.two (nmS 'y') [] aPlusB []).toks.map ltOfTok)).map (·.c) = "y ~ a + b ".toList
+    ∧ parseTerms {} env0 (render ascii ((Formula.two (nmS 'y') [] aPlusB []).toks.map ltOfTok))
+        = denoteFormula {} (.two (nmS 'y') [] aPlusB []) :=
+  ⟨by decide, parse_eq_denote_rendered_partial ascii (by decide) {} env0 _ (by decide)
+    (opIso_two _ _ rfl) ⟨rfl, Or.inl ⟨rfl, rfl⟩⟩ (by decide)⟩
+
+end Rendered
+
+/-! ### C01.10 — algebraic laws of the term algebra (ordered term sets; `Proofs/C01Algebra.lean`)
+
+All for ALL operands and as equalities of LISTS (same terms, same order). `oset` is "make it an ordered
+set" (first occurrence of every term identity); operands that come out of the evaluator are ordered
+sets already. -/
+section Algebra
+
+/-- C01.10a  `a + a = a`. -/
+theorem union_idempotent (a : List Term) : osetUnion a a = oset a := Proofs.C01Algebra.union_idem a
+
+/-- C01.10b  `(a + b) + c = a + (b + c)`: both are the terms of `a`, `b`, `c` in first-appearance order. -/
+theorem union_associative (a b c : List Term) :
+    osetUnion (osetUnion a b) c = osetUnion a (osetUnion b c)
+    ∧ osetUnion (osetUnion a b) c = oset (a ++ b ++ c) := Proofs.C01Algebra.union_assoc a b c
+
+/-- C01.10c  `-` is set difference on term identities, keeping the order of the left operand. -/
+theorem diff_is_set_difference (a b : List Term) :
+    osetDiff a b = a.filter (fun t => !(b.map Term.key).contains t.key) := Proofs.C01Algebra.diff_spec a b
+
+/-- C01.10d  **`:` distributes over `+`** (from the left, with order): `(a + b) : c = a:c + b:c`. (From
+the right only the term SETS agree: `a : (b + c)` lists `a₁:b₁, a₁:c₁, a₂:b₁, …`.) -/
+theorem interaction_distributes (a b c : List Term) :
+    osetProd (osetUnion a b) c = osetUnion (osetProd a c) (osetProd b c) :=
+  Proofs.C01Algebra.prod_distrib_left a b c
+
+/-- C01.10e  **`S ** n` for every `n`**: `S ** 1 = S` and `S ** (n+1) = (S ** n) : S` — the power is the
+`n`-fold interaction `S : S : … : S` (C01.8e is the case `n = 2`). -/
+theorem power_is_iterated_interaction (s : List Term) (n : Nat) :
+    powTerms s 1 = oset s ∧ powTerms s (n + 2) = osetProd (powTerms s (n + 1)) s :=
+  ⟨rfl, Proofs.C01Algebra.pow_succ s n⟩
+
+/-- C01.10f  Interactions respect term identity: the same terms (as sets of factors) give the same
+products — why de-duplicating an operand first never changes a product (`prod_oset_left`). -/
+theorem product_respects_identity (x x' y : Term) (h : Term.key x = Term.key x') :
+    Term.key (Term.mul x y) = Term.key (Term.mul x' y) := Proofs.C01Algebra.key_mul_congr x x' y h
+
+private def fa : Term := [Factor.mk "a" .lookup]
+private def fb : Term := [Factor.mk "b" .lookup]
+private def fc : Term := [Factor.mk "c" .lookup]
+/-- `(a + b + c)**3` through the law: `((S:S):S)`, 7 terms: a, a:b, a:c, a:b:c, b, b:c, c -/
+example : powTerms [fa, fb, fc] 3 = osetProd (osetProd [fa, fb, fc] [fa, fb, fc]) [fa, fb, fc]
+    ∧ (powTerms [fa, fb, fc] 3).length = 7 := by
+  constructor
+  · rw [(power_is_iterated_interaction [fa, fb, fc] 1).2, (power_is_iterated_interaction [fa, fb, fc] 0).2]
+    rfl
+  · rfl
+
+end Algebra
+
+/-! ### C01.9 continued — equivalent specification forms (`Model/FromSpec.lean`)
+
+`fromSpec` is `Formula.from_spec`, `formulaCall` the call `Formula(root, **structure)`; a specification
+is a string, a list of strings / `Term`s, a `dict`, a tuple, a `Structured`, an existing `Formula`. The
+string parser is a parameter (`E.parse`; the engine runs it with the parser model): the statements hold
+for EVERY parser. -/
+section Forms
+open FormulaicVerif.Model.FromSpec
+
+/-- C01.9a  **One-sided: string = list of `Term`s = list of strings.** If the string `s` denotes the plain
+term set `T` (under the parser) and the strings `ss` denote, under the nested parser, term sets whose
+concatenation is `T`, then `from_spec(s)`, `from_spec([Term, …])` and `from_spec([str, …])` are the same
+`SimpleFormula`: `T` in the requested ordering. (A list keeps repeated terms — the concatenation must BE
+`T`, duplicates are not merged: `Proofs.C01Forms.buildItems_strings`.) -/
+theorem forms_onesided {σ : Type} (E : Env σ) (o : FromSpec.Ordering) (parser nested : Option ParseCfg) (s : σ)
+    (T : List Term) (ss : List σ) (Ts : List (List Term))
+    (hs : E.parse (resolveParsers parser nested).parser s = .ok (.struct [("root", .set T)]))
+    (hss : Proofs.C01Forms.AllParse E (resolveParsers parser nested).nested ss Ts) (hT : Ts.flatten = T) :
+    fromSpec E (some o) parser nested (.str s) = .ok (.set (orderTerms o T))
+    ∧ fromSpec E (some o) parser nested (.items (T.map Item.term)) = .ok (.set (orderTerms o T))
+    ∧ fromSpec E (some o) parser nested (.items (ss.map Item.str)) = .ok (.set (orderTerms o T)) :=
+  Proofs.C01Forms.forms_onesided E o parser nested s T ss Ts hs hss hT
+
+/-- C01.9b  **Two-sided: string = dict = `lhs=`/`rhs=` keywords = `Structured`**, with the sides given as
+strings or as lists of `Term`s: whenever the one string denotes `{lhs: L, rhs: R}` and the side strings
+denote `L` and `R` (nested parser), all six specifications give
+`StructuredFormula(lhs = L, rhs = R)` in the requested ordering. -/
+theorem forms_twosided {σ : Type} (E : Env σ) (o : FromSpec.Ordering) (parser nested : Option ParseCfg)
+    (s sl sr : σ) (L R : List Term)
+    (hs : E.parse (resolveParsers parser nested).parser s = .ok (.struct [("lhs", .set L), ("rhs", .set R)]))
+    (hl : E.parse (resolveParsers parser nested).nested sl = .ok (.struct [("root", .set L)]))
+    (hr : E.parse (resolveParsers parser nested).nested sr = .ok (.struct [("root", .set R)])) :
+    let result : Except Err Val := .ok (.struct [("lhs", .set (orderTerms o L)), ("rhs", .set (orderTerms o R))])
+    fromSpec E (some o) parser nested (.str s) = result
+    ∧ fromSpec E (some o) parser nested (.dict [("lhs", .str sl), ("rhs", .str sr)]) = result
+    ∧ formulaCall E (some o) parser nested none [("lhs", .str sl), ("rhs", .str sr)] = result
+    ∧ fromSpec E (some o) parser nested (.dict [("lhs", .items (L.map Item.term)), ("rhs", .items (R.map Item.term))]) = result
+    ∧ formulaCall E (some o) parser nested none
+        [("lhs", .items (L.map Item.term)), ("rhs", .items (R.map Item.term))] = result
+    ∧ fromSpec E (some o) parser nested (.structured [("lhs", .str sl), ("rhs", .str sr)]) = result :=
+  Proofs.C01Forms.forms_twosided E o parser nested s sl sr L R hs hl hr
+
+/-- C01.9c  **String form = keyword form, for the documented grammar** (no hypothesis about the parser
+left): for all `Sum`s `l`, `p` without a literal `0` such that `l ~ p` is valid,
+`Formula.from_spec("l ~ p")` = `Formula(lhs="l", rhs="1 + p")` = the `dict` = the `Structured`
+specification, namely `{lhs: ⟦l⟧, rhs: ⟦p⟧ read from {1}}` in the requested ordering (strings are token
+sequences here; the keyword strings are read by the nested parser, which adds no intercept, so the
+`1 +` is written out). -/
+theorem string_eq_keywords_partial (env : PyEnv) (o : FromSpec.Ordering)
+    (l p : Proofs.C01Grammar.Sum)
+    (hzl : Proofs.C01Denote.NoZero (lin (Proofs.C01Grammar.toE l)))
+    (hzp : Proofs.C01Denote.NoZero (lin (Proofs.C01Grammar.toE p))) (v : Val)
+    (hd : Spec.Denote.denoteFormula defaultParser (.two l [] p []) = .ok v) :
+    let E := Proofs.C01FormsGrammar.tokEnv env
+    let s := (Spec.Denote.Formula.two l [] p []).toks
+    let sl := (Spec.Denote.Formula.one l []).toks
+    let sr := (Spec.Denote.Formula.one (Proofs.C01Denote.withOne p) []).toks
+    fromSpec E (some o) none none (.str s) = formulaCall E (some o) none none none [("lhs", .str sl), ("rhs", .str sr)]
+    ∧ fromSpec E (some o) none none (.str s) = fromSpec E (some o) none none (.dict [("lhs", .str sl), ("rhs", .str sr)])
+    ∧ fromSpec E (some o) none none (.str s) = fromSpec E (some o) none none (.structured [("lhs", .str sl), ("rhs", .str sr)])
+    ∧ ∃ L R, Spec.Denote.denSum l = .ok L ∧ Spec.Denote.foldSum [Spec.Denote.intercept] p = .ok R ∧
+        fromSpec E (some o) none none (.str s)
+          = .ok (.struct [("lhs", .set (orderTerms o L)), ("rhs", .set (orderTerms o R))]) :=
+  Proofs.C01FormsGrammar.string_eq_keywords env o l p hzl hzp v hd
+
+/-- C01.9e  **Nested structure = `|`.** A tuple of two one-part strings and the one string `s1 | s2`
+give the same formula — `{root: (T₁, T₂)}` in the requested ordering — whenever the string denotes the
+tuple of what the parts denote (every tuple element is parsed by the PARSER, so each part gets its own
+intercept, as each part of a multi-part string does: C01.6c). -/
+theorem forms_multipart_two {σ : Type} (E : Env σ) (o : FromSpec.Ordering) (parser nested : Option ParseCfg)
+    (s s1 s2 : σ) (T1 T2 : List Term)
+    (hs : E.parse (resolveParsers parser nested).parser s = .ok (.struct [("root", .tuple [.set T1, .set T2])]))
+    (h1 : E.parse (resolveParsers parser nested).parser s1 = .ok (.struct [("root", .set T1)]))
+    (h2 : E.parse (resolveParsers parser nested).parser s2 = .ok (.struct [("root", .set T2)])) :
+    fromSpec E (some o) parser nested (.str s)
+      = .ok (.struct [("root", .tuple [.set (orderTerms o T1), .set (orderTerms o T2)])])
+    ∧ fromSpec E (some o) parser nested (.tuple [.str s1, .str s2])
+      = .ok (.struct [("root", .tuple [.set (orderTerms o T1), .set (orderTerms o T2)])]) :=
+  Proofs.C01Forms.forms_multipart_two E o parser nested s s1 s2 T1 T2 hs h1 h2
+
+/-- C01.9f  The two fuel-bounded loops of the specification model (`Structured.__iter__` through nested
+roots, the unwrapping loop of `_simplify(unwrap=False)`) never run out of fuel: any fuel above the
+nesting depth gives the result the model computes. -/
+theorem fromSpec_fuel_sufficient (n m : Nat) (v : Val) :
+    (valDepth v < n → valDepth v < m → FromSpec.iterVal n v = FromSpec.iterVal m v)
+    ∧ (valDepth v ≤ n → valDepth v ≤ m → FromSpec.peelInit n v = FromSpec.peelInit m v) :=
+  ⟨Proofs.C01Forms.iterVal_fuel n m v, Proofs.C01Forms.peelInit_fuel n m v⟩
+
+/-- C01.9d  **`_ordering`.** `none` keeps the order of the specification; `degree` is the stable sort by
+interaction degree (C01.9); `sort` orders the factors of every term by expression and the terms by
+`Term.__lt__` (degree, then factors): the result is sorted, and it is a permutation of the
+factor-sorted terms. -/
+theorem ordering_methods (ts : List Term) :
+    orderTerms .none ts = ts
+    ∧ orderTerms .degree ts = sortByDegree ts
+    ∧ (Spec.Containers.SortedLt (orderTerms .sort ts)
+        ∧ (orderTerms .sort ts).Perm (ts.map SFm.normTerm)
+        ∧ ∀ t ∈ orderTerms .sort ts, Spec.Containers.FactorsSorted t) := by
+  refine ⟨rfl, rfl, Proofs.C19.sortTerms_sorted _, Proofs.C19.sortTerms_perm _, ?_⟩
+  intro t ht
+  have := (Proofs.C19.sortTerms_perm (ts.map SFm.normTerm)).mem_iff.1 ht
+  obtain ⟨t', _, rfl⟩ := List.mem_map.1 this
+  exact Proofs.C19.normTerm_sorted t'
+
+private def strEnv : Env String :=
+  { parse := fun cfg s =>
+      if s == "y ~ x" then .ok (.struct [("lhs", .set [[Factor.mk "y" .lookup]]),
+          ("rhs", .set (if cfg.includeIntercept then [[Factor.mk "1" .literal], [Factor.mk "x" .lookup]] else [[Factor.mk "x" .lookup]]))])
+      else if s == "y" then .ok (.struct [("root", .set [[Factor.mk "y" .lookup]])])
+      else if s == "1 + x" then .ok (.struct [("root", .set [[Factor.mk "1" .literal], [Factor.mk "x" .lookup]])])
+      else .error (.syntax "unknown") }
+
+/-- non-vacuity of C01.9b: a parser that knows three strings satisfies the hypotheses with
+`L = {y}`, `R = {1, x}` under the default parsers -/
+example : fromSpec strEnv (some .degree) none none (.str "y ~ x")
+    = formulaCall strEnv (some .degree) none none none [("lhs", .str "y"), ("rhs", .str "1 + x")] := by
+  have h := forms_twosided strEnv .degree none none "y ~ x" "y" "1 + x"
+    [[Factor.mk "y" .lookup]] [[Factor.mk "1" .literal], [Factor.mk "x" .lookup]] (by rfl) (by rfl) (by rfl)
+  exact h.1.trans h.2.2.1.symm
+
+/-- non-vacuity of C01.9c: `l = y`, `p = a + b` (names) satisfy the hypotheses — the denotation of
+`y ~ a + b` under the default parser is defined (`rfl`) — so the string form and the keyword form
+`Formula(lhs="y", rhs="1 + a + b")` coincide -/
+example (env : PyEnv) :
+    fromSpec (Proofs.C01FormsGrammar.tokEnv env) (some .degree) none none
+        (.str (Spec.Denote.Formula.two (nmS 'y') [] aPlusB []).toks)
+      = formulaCall (Proofs.C01FormsGrammar.tokEnv env) (some .degree) none none none
+          [("lhs", .str (Spec.Denote.Formula.one (nmS 'y') []).toks),
+           ("rhs", .str (Spec.Denote.Formula.one (Proofs.C01Denote.withOne aPlusB) []).toks)] :=
+  (string_eq_keywords_partial env .degree (nmS 'y') aPlusB (by decide) (by decide) _ (by rfl)).1
+
+end Forms
 
 end FormulaicVerif.Props.C01
